@@ -115,6 +115,13 @@ func (c *RunnerCloserManager) AddCloser(closers ...any) error {
 	c.mngr.lock.Lock()
 	defer c.mngr.lock.Unlock()
 
+	// Check again now that we hold the lock: Run sets closing and takes its
+	// snapshot of the closers while holding it, so a closer appended after
+	// that point would never be called.
+	if c.closing.Load() {
+		return ErrManagerAlreadyClosed
+	}
+
 	var errs []error
 	for _, cl := range closers {
 		switch v := cl.(type) {
